@@ -23,6 +23,8 @@
 #include "stir/recon_buildblock/TrivialBinNormalisation.h"
 #include "stir/OSMAPOSL/OSMAPOSLReconstruction.h"
 #include "stir/OSSPS/OSSPSReconstruction.h"
+#include "stir/analytic/FBP2D/FBP2DReconstruction.h"
+#include "stir/recon_buildblock/BinNormalisation.h"
 #include "stir/ProjDataInMemory.h"
 #include "stir/ProjDataInfoSubsetByView.h"
 #include "stir/VoxelsOnCartesianGrid.h"
@@ -79,6 +81,9 @@ struct Variant {
   int mash = 1;            // view mashing (gives a phi offset)
   bool nonsquare = false;  // voxel size x != y
   bool shifted = false;    // image origin shifted in x
+  int span = 1;            // axial compression
+  bool reduce = false;     // reduce_segment_range(redMin, redMax) on the data (possibly not symmetric)
+  int redMin = 0, redMax = 0;
 };
 
 struct Built {
@@ -108,7 +113,8 @@ static bool build(Built& b, const Variant& v, int views, std::string* msg, int r
       for (int i = 0; i < views; ++i) sel.push_back(2 * i);
       b.pdi.reset(new ProjDataInfoSubsetByView(org, sel));
     } else
-      b.pdi = ProjDataInfo::construct_proj_data_info(sc, 1, rings - 1, views, nt, false, v.tofMash);
+      b.pdi = ProjDataInfo::construct_proj_data_info(sc, v.span, rings - 1, views, nt, false, v.tofMash);
+    if (v.reduce) b.pdi->reduce_segment_range(v.redMin, v.redMax);
     CartesianCoordinate3D<float> origin(0.F, 0.F, v.shifted ? 3.F : 0.F);
     auto* vox = new VoxelsOnCartesianGrid<float>(*b.pdi, 1.F, origin, CartesianCoordinate3D<int>(-1, 5, 5));
     if (v.nonsquare) {
@@ -147,21 +153,21 @@ static bool build(Built& b, const Variant& v, int views, std::string* msg, int r
 
 static long cfg_id = 0;
 
-static void emit_config(vh::Trace& tr, const Variant& v, const Built& b, int views, int maxSeg) {
+static void emit_config(vh::Trace& tr, const Variant& v, const Built& b, int views, int minSeg, int maxSeg) {
   std::vector<int> req = { v.r90, v.r180, v.rseg, 1, 1 }, eff(b.eff, b.eff + 5);
   tr.emit(vh::Json("Config").num("id", ++cfg_id).str("kind", v.kind).num("views", views).num("numViews", b.pdi->get_num_views())
               .num("minView", b.pdi->get_min_view_num()).num("maxView", b.pdi->get_max_view_num())
-              .num("maxSeg", maxSeg).num("dataMinSeg", b.pdi->get_min_segment_num()).num("dataMaxSeg", b.pdi->get_max_segment_num())
+              .num("minSeg", minSeg).num("maxSeg", maxSeg).num("span", v.span).num("dataMinSeg", b.pdi->get_min_segment_num()).num("dataMaxSeg", b.pdi->get_max_segment_num())
               .num("minTof", b.pdi->get_min_tof_pos_num()).num("maxTof", b.pdi->get_max_tof_pos_num())
               .arr("req", req).arr("eff", eff).boolean("cartesian", b.cartesian)
               .num("mash", v.mash).boolean("nonsquare", v.nonsquare).boolean("shifted", v.shifted).boolean("tof", v.tofMash > 0));
 }
 
 // what the symmetries object says about every (view, segment) of the processed range
-static void emit_basic_related(vh::Trace& tr, const Built& b, int maxSeg) {
+static void emit_basic_related(vh::Trace& tr, const Built& b, int minSeg, int maxSeg) {
   std::vector<int> isb;
   std::vector<std::vector<int>> fb, rel;
-  for (int seg = -maxSeg; seg <= maxSeg; ++seg)
+  for (int seg = minSeg; seg <= maxSeg; ++seg)
     for (int view = b.pdi->get_min_view_num(); view <= b.pdi->get_max_view_num(); ++view) {
       const ViewSegmentNumbers vs(view, seg);
       if (b.sym->is_basic(vs)) isb.push_back(vscode(vs));
@@ -198,8 +204,8 @@ static void record_subsets(vh::Trace& tr, const Variant& v, int views, const std
   obj.set_projector_pair_sptr(b.pair);
   for (int maxSeg : maxSegs) {
     if (maxSeg > b.pdi->get_max_segment_num()) continue;
-    emit_config(tr, v, b, views, maxSeg);
-    emit_basic_related(tr, b, maxSeg);
+    emit_config(tr, v, b, views, -maxSeg, maxSeg);
+    emit_basic_related(tr, b, -maxSeg, maxSeg);
     obj.set_max_segment_num_to_process(maxSeg);
     std::vector<int> Ns = Ns_in;
     if (Ns.empty()) { for (int N = 1; N <= views; ++N) Ns.push_back(N); Ns.push_back(views + 1 + rng.range(0, 3)); }
@@ -333,6 +339,25 @@ public:
   void stop() { recording = false; }
 };
 
+// a normalisation object with all efficiencies 1 that records the viewgrams it is asked to (un)normalise:
+// the sensitivity computation reads no measured data, but it passes every viewgram of its subset through here
+class RecNorm : public BinNormalisation {
+public:
+  mutable std::vector<int> seen;
+  mutable bool recording = false;
+  float get_bin_efficiency(const Bin&) const override { return 1.F; }
+  std::string get_registered_name() const override { return "RecNorm"; }
+  void apply(stir::RelatedViewgrams<float>& v) const override { note(v); }
+  void undo(stir::RelatedViewgrams<float>& v) const override { note(v); }
+  void start() const { seen.clear(); recording = true; }
+  void stop() const { recording = false; }
+private:
+  void note(const stir::RelatedViewgrams<float>& v) const {
+    if (!recording) return;
+    for (auto it = v.begin(); it != v.end(); ++it) seen.push_back(vstcode(it->get_view_num(), it->get_segment_num(), it->get_timing_pos_num()));
+  }
+};
+
 static void emit_touched(vh::Trace& tr, const char* op, int N, int s, bool err, const std::vector<int>& codes) {
   tr.emit(vh::Json("Touched").str("op", op).num("N", N).num("s", s).boolean("err", err).arr("codes", codes));
 }
@@ -350,10 +375,11 @@ static void record_proj(vh::Trace& tr, const Variant& v, int views, int rings, c
   pd->fill(1.F);
   shared_ptr<Image> ones(b.image->clone());
   ones->fill(1.F);
-  const int dataMax = b.pdi->get_max_segment_num();
+  const int dataMin = b.pdi->get_min_segment_num(), dataMax = b.pdi->get_max_segment_num();
+  const bool symmetric = dataMin == -dataMax;
   // projectors process the whole segment range of the data
-  emit_config(tr, v, b, views, dataMax);
-  emit_basic_related(tr, b, dataMax);
+  emit_config(tr, v, b, views, dataMin, dataMax);
+  emit_basic_related(tr, b, dataMin, dataMax);
   auto fp = b.pair->get_forward_projector_sptr();
   auto bp = b.pair->get_back_projector_sptr();
   for (int N : Ns) {
@@ -376,25 +402,33 @@ static void record_proj(vh::Trace& tr, const Variant& v, int views, int rings, c
     tr.emit(vh::Json("Sweep").str("op", "fwd").num("N", N).boolean("err", sweep_err).arr("codes", sweep));
   }
   if (!with_objective) return;
-  for (int maxSeg = dataMax; maxSeg >= 0; maxSeg -= std::max(1, dataMax)) {
+  // objective function: all segments of the data (max_segment_num_to_process = -1, or = the largest), and segment 0 only
+  std::vector<int> limits;
+  if (symmetric) { limits.push_back(dataMax); if (dataMax > 0) limits.push_back(0); }
+  else limits.push_back(-1);
+  const bool tof = b.pdi->is_tof_data();
+  for (int limit : limits) {
     bool first = true;
     for (int N : Ns) {
       PLL obj;
+      shared_ptr<RecNorm> norm(new RecNorm);
       bool ok = false;
       std::string m2;
       bool err = vh::threw([&] {
         obj.set_proj_data_sptr(pd);
         obj.set_projector_pair_sptr(b.pair);
-        obj.set_max_segment_num_to_process(maxSeg);
+        obj.set_max_segment_num_to_process(limit);
         obj.set_num_subsets(N);
         obj.set_use_subset_sensitivities(true);
         obj.set_recompute_sensitivity(true);
         obj.set_zero_seg0_end_planes(false);
+        if (!tof) obj.set_normalisation_sptr(norm);
         ok = obj.set_up(b.image) == Succeeded::yes;
       }, &m2);
-      if (err || !ok) { tr.emit(vh::Json("ConfigRejected").str("kind", "objective").num("views", views).num("N", N).str("msg", m2)); continue; }
       b.refresh();
-      if (first) { emit_config(tr, v, b, views, maxSeg); emit_basic_related(tr, b, maxSeg); first = false; }
+      const int mn = limit < 0 ? dataMin : -limit, mx = limit < 0 ? dataMax : limit;
+      if (first) { emit_config(tr, v, b, views, mn, mx); emit_basic_related(tr, b, mn, mx); first = false; }
+      if (err || !ok) { tr.emit(vh::Json("ObjectiveRejected").num("views", views).num("N", N).num("limit", limit).boolean("err", err).str("msg", m2)); continue; }
       for (int s = 0; s < N; ++s) {
         shared_ptr<Image> g(b.image->get_empty_copy());
         pd->start();
@@ -415,9 +449,58 @@ static void record_proj(vh::Trace& tr, const Variant& v, int views, int rings, c
         err = vh::threw([&] { obj.add_multiplication_with_approximate_sub_Hessian_without_penalty(*g, *ones, s); });
         pd->stop();
         emit_touched(tr, "ahess", N, s, err, pd->reads);
+        if (!tof) {
+          // the subset sensitivity: no data are read; the viewgrams it covers pass through the normalisation object
+          g->fill(0.F);
+          norm->start();
+          err = vh::threw([&] { obj.add_subset_sensitivity(*g, s); });
+          norm->stop();
+          emit_touched(tr, "sens", N, s, err, norm->seen);
+        }
       }
     }
   }
+}
+
+// FBP2D: its back-projection loop uses detail::find_basic_vs_nums_in_subset(..., 0, 0, 0, 1): every view of segment 0 once.
+// Its back projector is a private member (default: BackProjectorByBinUsingInterpolation, whose symmetries are a
+// DataSymmetriesForBins_PET_CartesianGrid with all symmetries requested); arc-corrected 2D data are used so that the
+// projector is set up with the geometry of the data, and the basic/related tables are recorded from a symmetries
+// object constructed in the same way.
+static void record_fbp2d(vh::Trace& tr, int views) {
+  Variant v; v.kind = "fbp2d"; v.r90 = v.r180 = v.rseg = true;
+  Built b;
+  std::string msg;
+  shared_ptr<DataSymmetriesForBins_PET_CartesianGrid> sym;
+  shared_ptr<RecProjData> pd;
+  bool err = vh::threw([&] {
+    shared_ptr<Scanner> sc = vh::make_scanner(2 * views, 1);
+    b.pdi = ProjDataInfo::construct_proj_data_info(sc, 1, 0, views, std::max(1, std::min(5, 2 * views - 1)), true, 0);
+    b.image.reset(new VoxelsOnCartesianGrid<float>(*b.pdi, 1.F, CartesianCoordinate3D<float>(0.F, 0.F, 0.F), CartesianCoordinate3D<int>(-1, 5, 5)));
+    shared_ptr<ExamInfo> ei(new ExamInfo);
+    ei->imaging_modality = ImagingModality::PT;
+    pd.reset(new RecProjData(ei, b.pdi));
+    pd->fill(1.F);
+    sym.reset(new DataSymmetriesForBins_PET_CartesianGrid(b.pdi, b.image));
+  }, &msg);
+  if (err) { tr.emit(vh::Json("ConfigRejected").str("kind", v.kind).num("views", views).str("msg", msg)); return; }
+  b.sym = sym.get();
+  b.cartesian = true;
+  b.eff[0] = sym->using_symmetry_90degrees_min_phi(); b.eff[1] = sym->using_symmetry_180degrees_min_phi();
+  b.eff[2] = sym->using_symmetry_swap_segment(); b.eff[3] = sym->using_symmetry_swap_s(); b.eff[4] = sym->using_symmetry_shift_z();
+  shared_ptr<Image> out(b.image->get_empty_copy());
+  bool ok = false;
+  pd->start();
+  err = vh::threw([&] {
+    FBP2DReconstruction recon(pd, 1., .5, 2, 1);
+    recon.set_disable_output(true);
+    ok = recon.set_up(out) == Succeeded::yes && recon.reconstruct(out) == Succeeded::yes;
+  }, &msg);
+  pd->stop();
+  if (err || !ok) { tr.emit(vh::Json("ConfigRejected").str("kind", v.kind).num("views", views).str("msg", msg)); return; }
+  emit_config(tr, v, b, views, 0, 0);
+  emit_basic_related(tr, b, 0, 0);
+  emit_touched(tr, "fbp2d", 1, 0, err, pd->reads);
 }
 
 static void mode_proj(vh::Trace& tr, int stage, vh::Rng& rng) {
@@ -426,16 +509,37 @@ static void mode_proj(vh::Trace& tr, int stage, vh::Rng& rng) {
   { Variant v; v.kind = "cyl"; v.r90 = v.r180 = v.rseg = true; v.tofMash = 1; vars.push_back(v); }
   { Variant v; v.kind = "trivial"; v.r90 = v.r180 = v.rseg = false; v.tofMash = 1; vars.push_back(v); }
   { Variant v; v.kind = "blocks"; v.r90 = v.r180 = v.rseg = true; vars.push_back(v); }
+  // axially compressed data (span 3 on 5 rings: segments -1..1)
+  { Variant v; v.kind = "cyl"; v.r90 = v.r180 = v.rseg = true; v.span = 3; vars.push_back(v); }
+  { Variant v; v.kind = "cyl"; v.r90 = false; v.r180 = true; v.rseg = false; v.span = 3; vars.push_back(v); }
+  // the data themselves are a subset of the views of larger data (subsets of subsets)
+  { Variant v; v.kind = "subsetpdi"; v.r90 = v.r180 = v.rseg = true; vars.push_back(v); }
+  { Variant v; v.kind = "subsetpdi"; v.r90 = v.r180 = v.rseg = false; vars.push_back(v); }
+  // segment ranges that are not symmetric (reduce_segment_range), with and without the swap-segment symmetry
+  for (int rseg = 0; rseg < 2; ++rseg)
+    for (int r90 = 0; r90 < 2; ++r90) {
+      static const int R[6][2] = { { -2, 1 }, { -1, 2 }, { -2, 0 }, { 0, 2 }, { -1, 0 }, { 0, 1 } };
+      for (auto& r : R) { Variant v; v.kind = "cyl"; v.r90 = r90; v.r180 = r90; v.rseg = rseg; v.reduce = true; v.redMin = r[0]; v.redMax = r[1]; vars.push_back(v); }
+    }
+  { Variant v; v.kind = "trivial"; v.r90 = v.r180 = v.rseg = false; v.reduce = true; v.redMin = -2; v.redMax = 1; vars.push_back(v); }
   for (int views : viewsList)
     for (auto& v : vars) {
       if (v.kind == "blocks" && views < 4) continue;
+      if (v.reduce && !(views == 3 || views == 4 || views == 8 || (stage && views == 12))) continue;
       std::vector<int> Ns;
       if (views <= 8) { for (int N = 1; N <= views + 1; ++N) Ns.push_back(N); }
       else { Ns = { 1, 2, 3, 4, views / 2, views, rng.range(5, views) }; std::sort(Ns.begin(), Ns.end()); Ns.erase(std::unique(Ns.begin(), Ns.end()), Ns.end()); }
-      const int rings = (v.tofMash > 0 || views > 12) ? 2 : 3;
+      if (v.reduce) Ns = { 1, 2, 3 };
+      const int rings = v.span == 3 ? 5 : (v.tofMash > 0 || views > 12) ? 2 : 3;
       const int sig = forked(tr, nullptr, [&](vh::Trace& a, vh::Trace&) { record_proj(a, v, views, rings, Ns, true); });
       if (sig) emit_died(tr, "proj", v, views, sig);
     }
+  // FBP2D on 2D data
+  for (int views : (stage ? std::vector<int>{ 2, 3, 4, 6, 8, 12, 16, 20, 24, 32 } : std::vector<int>{ 4, 6, 8, 12 })) {
+    Variant v; v.kind = "fbp2d"; v.r90 = v.r180 = v.rseg = true;
+    const int sig = forked(tr, nullptr, [&](vh::Trace& a, vh::Trace&) { record_fbp2d(a, views); });
+    if (sig) emit_died(tr, "fbp2d", v, views, sig);
+  }
 }
 
 struct PlainOSSPS : public OSSPSReconstruction<Image> {
@@ -495,8 +599,8 @@ static void record_recon(vh::Trace& tr, vh::Trace& trs, const Variant& v, int vi
   pd->stop();
   const int used = recon->get_num_subsets(), objN = obj->get_num_subsets();
   b.refresh();
-  emit_config(tr, v, b, views, b.pdi->get_max_segment_num());
-  emit_basic_related(tr, b, b.pdi->get_max_segment_num());
+  emit_config(tr, v, b, views, b.pdi->get_min_segment_num(), b.pdi->get_max_segment_num());
+  emit_basic_related(tr, b, b.pdi->get_min_segment_num(), b.pdi->get_max_segment_num());
   std::vector<int> subs, its, ns;
   for (size_t i = 0; i < calls.size(); ++i) {
     its.push_back(calls[i][0]); subs.push_back(calls[i][1]); ns.push_back(calls[i][2]);
